@@ -195,4 +195,54 @@ pub fn atom_new_ascii<const L: usize>() {
     std::mem::forget(m);
 }
 
+/// Atom::parse on a text whose STRUCTURE is concrete (marker prefix, optional escaped space in the
+/// middle, marker suffix - enumerated by the driver) and whose letters have a symbolic CASE; the
+/// case / normalization modes are symbolic. (Fully symbolic bytes send CBMC through std's
+/// two-way searcher, `is_ascii`'s word-at-a-time scan and - because `is_ascii()` is not decided
+/// during symbolic execution - through unicode-segmentation's GraphemeCursor, with heap strings
+/// of symbolic length: one byte already runs > 20 min.)
+pub fn atom_parse_shape<const L: usize>(text: [u8; L]) {
+    let mut raw = text;
+    let mut i = 0;
+    while i < L {
+        // every lower-case letter of the template becomes "this letter, in either case"
+        if raw[i] >= b'a' && raw[i] <= b'z' {
+            if sym::bool_() {
+                raw[i] -= 32;
+            }
+        }
+        i += 1;
+    }
+    let case = sym_case();
+    let norm = sym_norm();
+    let s = unsafe { std::str::from_utf8_unchecked(&raw) };
+    let atom = Atom::parse(s, case, norm);
+    let mut m = Matcher::new(Config::DEFAULT);
+    let got = observe(&atom, &mut m);
+    let want = ref_atom(&raw, case, norm, true, AtomKind::Fuzzy);
+    check!(got.negative == want.negative, "C14 an exclamation mark is read as negation unless backslash-escaped");
+    check!(got.kind == want.kind, "C14 caret, quote and dollar are read as match-kind markers unless backslash-escaped");
+    check!(same(&got, &want), "C14 parsed atom equals the reference grammar (needle text, kind, polarity, smart case, smart normalization)");
+    cover!(got.ignore_case, "atom that ignores case");
+    cover!(!got.ignore_case, "atom that respects case");
+    std::mem::forget(atom);
+    std::mem::forget(m);
+}
+
 include!(concat!(env!("NUCLEO_VERIF_GEN"), "/matcher_pattern.rs"));
+
+/// Stub for `str::split_once` (environment; `-Z stubbing`): a naive left-to-right search instead
+/// of std's two-way searcher. nucleo-matcher only ever passes the delimiter `"\\ "` (backslash,
+/// space); the stub is specialised to it and asserts nothing else reaches it through `ENGINE`.
+#[cfg(kani)]
+pub fn split_once_escaped_space<'a, P: core::str::pattern::Pattern>(s: &'a str, _delimiter: P) -> Option<(&'a str, &'a str)> {
+    let b = s.as_bytes();
+    let mut i = 0;
+    while i + 1 < b.len() {
+        if b[i] == b'\\' && b[i + 1] == b' ' {
+            return Some(unsafe { (s.get_unchecked(..i), s.get_unchecked(i + 2..)) });
+        }
+        i += 1;
+    }
+    None
+}
